@@ -20,7 +20,11 @@ import (
 
 // C04 — concurrent parse/render on a shared engine is race-free and equals sequential.
 
-const c04IncName = "c04_included.liquid"
+const (
+	c04IncName  = "c04_included.liquid"
+	c04FailName = "c04_failing.liquid"
+	c04AltPath  = "c04_other_page.liquid"
+)
 
 var c04Cur *sched.S // the scheduler of the execution in progress (one at a time per worker)
 
@@ -43,6 +47,9 @@ func c04Engine() *liquid.Engine {
 		return s, err
 	})
 	if _, err := e.ParseTemplateAndCache([]byte("inc[{% y %}{% assign x = 'i' %}{{ x | y }}{% for i in l %}{% cycle '1', '2' %}{% y %}{% endfor %}]"), c04IncName, 1); err != nil {
+		panic("harness: " + err.Error())
+	}
+	if _, err := e.ParseTemplateAndCache([]byte("F[{% y %}{{ l | first | divided_by: 0 }}]"), c04FailName, 1); err != nil {
 		panic("harness: " + err.Error())
 	}
 	return e
@@ -110,6 +117,7 @@ var c04Base = []string{
 	"p{% raw %}{{ raw }}{% endraw %}{% comment %}zz{% endcomment %}q{{ d.k }}{{ d.l | join }}",
 	"{% for kv in m %}{{ kv[0] }}={{ kv[1] }};{% endfor %}{{ m.size }}{{ dl | join }}{{ dl[0] }}{% if dl[1] == 's' %}S{% endif %}",
 	"{% yb %}in{{ x }}{% endyb %}{% for i in l limit: 2 %}{% cycle 'g': '1', '2', '3' %}{% endfor %}",
+	`a{% include "` + c04FailName + `" %}b`, // the error raised inside the included file names the INCLUDING template's path and line
 	// thorough
 	"{% assign l = l | reverse %}{% for i in l %}{{ i }}{% endfor %}{% assign x = nil %}{{ x }}",
 	"{% for x in l %}{{ x }}{% endfor %}{{ x }}{{ forloop }}",
@@ -140,7 +148,7 @@ type c04Scenario struct {
 }
 
 func c04Scenarios(tier string) []c04Scenario {
-	nT := 12
+	nT := 13
 	if tier == "thorough" {
 		nT = len(c04Base)
 	}
@@ -170,6 +178,15 @@ func c04Scenarios(tier string) []c04Scenario {
 	for _, pr := range pairs {
 		out = append(out, c04Scenario{fmt.Sprintf("two-parses:t%d,t%d", pr[0], pr[1]), [][]c04Op{{p(pr[0]), p(pr[1])}, {p(pr[1]), p(pr[0])}}})
 	}
+	// the same source parsed at two locations (another file of the same directory, another line): both
+	// include the same files, and what an include compiles depends on where it was included from
+	ra := func(t int) c04Op { return c04Op{"render-alt", t} }
+	for t := 0; t < nT; t++ {
+		if strings.Contains(c04Base[t], "include") || strings.Contains(c04Base[t], "nosuch") || strings.Contains(c04Base[t], "divided_by: 0") {
+			out = append(out, c04Scenario{fmt.Sprintf("two-locations:t%d", t), [][]c04Op{{r(t)}, {ra(t)}}})
+			out = append(out, c04Scenario{fmt.Sprintf("two-locations-3:t%d", t), [][]c04Op{{r(t)}, {ra(t)}, {ra(t)}}})
+		}
+	}
 	// three goroutines
 	for _, t := range []int{0, 1, 3} {
 		out = append(out, c04Scenario{fmt.Sprintf("three-goroutines:t%d", t), [][]c04Op{{r(t)}, {f(t)}, {r(t)}}})
@@ -181,12 +198,13 @@ type c04World struct {
 	eng    *liquid.Engine
 	src    []string
 	tpls   []*liquid.Template
+	alt    map[int]*liquid.Template // the same sources parsed at another location
 	shared map[string]any
 	snap   string
 }
 
 func c04NewWorld(nT int, used ...int) *c04World {
-	w := &c04World{eng: c04Engine(), shared: c04Shared()}
+	w := &c04World{eng: c04Engine(), shared: c04Shared(), alt: map[int]*liquid.Template{}}
 	need := map[int]bool{}
 	for _, t := range used {
 		need[t] = true
@@ -203,6 +221,11 @@ func c04NewWorld(nT int, used ...int) *c04World {
 			panic(explore.BaselineFailure{Msg: "harness: instrumented template does not parse: " + s + ": " + err.Error()})
 		}
 		w.tpls = append(w.tpls, tpl)
+		alt, err := w.eng.ParseTemplateLocation([]byte(s), c04AltPath, 7)
+		if err != nil {
+			panic(explore.BaselineFailure{Msg: "harness: " + err.Error()})
+		}
+		w.alt[t] = alt
 	}
 	w.snap = explore.Snapshot(w.shared)
 	return w
@@ -223,6 +246,9 @@ func (w *c04World) do(op c04Op) string {
 		switch op.kind {
 		case "render":
 			out, err := w.tpls[op.t].Render(w.shared)
+			o.Out, o.Err = string(out), err
+		case "render-alt":
+			out, err := w.alt[op.t].Render(w.shared)
 			o.Out, o.Err = string(out), err
 		case "frender":
 			pw := &pointWriter{}
@@ -262,7 +288,7 @@ func c04Solo(nT int, op c04Op) string {
 
 func c04Families(tier string) []explore.Family {
 	scen := c04Scenarios(tier)
-	nT := 12
+	nT := 13
 	bound2, bound3 := 2, 1
 	maxExec := 200000
 	if tier == "thorough" {
@@ -672,7 +698,7 @@ func init() {
 			"the library's own synchronisation is owned too: ./check C04 compiles every repository file that imports \"sync\" from a copy derived at build time in which that import is rewritten to verifmc/syncshim, whose Mutex, RWMutex, Once, Pool (deterministic LIFO: a Put object goes to the very next Get of any goroutine), Map and WaitGroup make every operation a scheduling point and make blocking visible (nobody enabled = deadlock, a violation); the counter library_sync_points_scheduled shows they were reached; sync/atomic, sync.Cond and channels are not shimmed (the tree uses none; a tree that starts using Cond/OnceFunc falls back to the unshimmed build, reported as a note)",
 			"the statement's 'static check for writes to captured variables' is static analysis (another technique family) and is not built; its defect class is covered dynamically by (b)",
 		},
-		Setup:    func(string) { c04.solo = map[string]string{} },
+		Setup: func(string) { c04.solo = map[string]string{} },
 		Post: func(tier string, r *explore.Rec) {
 			if !c04ShimOn {
 				r.Notes = append(r.Notes, "built WITHOUT the sync shim overlay: the library's own locks/onces/pools were not scheduling points in this run")
